@@ -94,7 +94,8 @@ class Target:
     run(env, cfg, case) executes the case against the oracle, raises Violation, returns True when the
     case is non-trivial by the property's rule (or a (nontrivial, labels) tuple)."""
 
-    def __init__(self, name, strategy, run, cfgs, quick, thorough, needs=None, max_size=None, job_size=None):
+    def __init__(self, name, strategy, run, cfgs, quick, thorough, needs=None, max_size=None, job_size=None,
+                 fuzz=None):
         self.name = name
         self.strategy = strategy
         self.run = run
@@ -102,6 +103,8 @@ class Target:
         self.examples = {"quick": quick, "thorough": thorough}   # examples per (cfg) in total
         self.needs = needs          # optional predicate(env, cfg) -> bool (supported?)
         self.job_size = job_size    # optional {"quick": n, "thorough": m} overriding the module's JOB_SIZE
+        self.fuzz = fuzz            # libFuzzer target name (engine/fuzz/<name>.c): coverage-guided search instead of
+        #                             Hypothesis; `quick`/`thorough` are then -runs per job; run() replays one input
 
 
 # ---------------------------------------------------------------------------------- known findings
@@ -157,6 +160,14 @@ def _run_job(job):
                requested=job["n"], budget_hit=False)
     state = {"last_fail": None}
     cfg = job["cfg"]
+    if target.fuzz:
+        try:
+            _run_fuzz_job(job, target, out)
+        except Exception:
+            out["error"] = traceback.format_exc()
+        out["labels"] = env.labels
+        out["wall"] = time.time() - t0
+        return out
     try:
         if target.needs is not None and not target.needs(env, cfg):
             out["unsupported"] = 1
@@ -235,10 +246,96 @@ def _run_job(job):
     return out
 
 
+def fuzz_replay(cfg, fuzz_target, data, timeout=120):
+    """Run one input through a libFuzzer binary. Returns None if it passes, else a Violation."""
+    import subprocess
+    import tempfile
+    exe = build.ensure_fuzz(cfg, fuzz_target)
+    wd = os.path.join(VERIF, ".work")
+    os.makedirs(wd, exist_ok=True)
+    with tempfile.NamedTemporaryFile(dir=wd, prefix="fzin_", delete=False) as f:
+        f.write(data)
+        path = f.name
+    try:
+        env = dict(os.environ, ASAN_OPTIONS="detect_leaks=0:abort_on_error=0:symbolize=1",
+                   UBSAN_OPTIONS="print_stacktrace=1:halt_on_error=1")
+        p = subprocess.run([exe, path], stdout=subprocess.PIPE, stderr=subprocess.STDOUT, timeout=timeout, env=env)
+        if p.returncode == 0:
+            return None
+        txt = p.stdout.decode(errors="replace")
+        kind, frames = sanitizer_signature(txt)
+        import re
+        m = re.search(r"FUZZ-ORACLE-VIOLATION: ([^\n]*)", txt)
+        msg = "fuzz target %s: %s" % (fuzz_target, m.group(1) if m else (kind or "crash rc=%d" % p.returncode))
+        return Violation(msg, crash=True, kind=kind, frames=frames, oracle=m.group(1) if m else None,
+                         stderr=txt[-2500:], ub=[kind] if kind and kind.startswith("UBSan|") else None)
+    except subprocess.TimeoutExpired:
+        return None
+    finally:
+        try:
+            os.remove(path)
+        except OSError:
+            pass
+
+
+def _run_fuzz_job(job, target, out):
+    """One libFuzzer campaign: fresh corpus dir + committed seed corpus, -runs bound, crash/leak artefacts only."""
+    import glob
+    import re
+    import shutil
+    import subprocess
+    cfg = job["cfg"]
+    exe = build.ensure_fuzz(cfg, target.fuzz)
+    wd = os.path.join(VERIF, ".work", "fz_%s_%d" % (target.fuzz, job["seed"] & 0xFFFFFFFF))
+    shutil.rmtree(wd, ignore_errors=True)
+    os.makedirs(os.path.join(wd, "corpus"))
+    os.makedirs(os.path.join(wd, "art"))
+    seeds = os.path.join(VERIF, "engine", "fuzz", "corpus", target.fuzz)
+    args = [exe, "-runs=%d" % job["n"], "-seed=%d" % ((job["seed"] % 2000000000) + 1), "-max_len=1024",
+            "-artifact_prefix=" + os.path.join(wd, "art") + os.sep, "-print_final_stats=1", "-timeout=30",
+            "-max_total_time=%d" % max(10, int(job["deadline"] - time.time())), os.path.join(wd, "corpus")]
+    if os.path.isdir(seeds) and (job["seed"] % 2 == 0):
+        args.append(seeds)          # every other job starts from the committed seeds, the others from an empty corpus
+    env = dict(os.environ, ASAN_OPTIONS="detect_leaks=0:abort_on_error=0:symbolize=1",
+               UBSAN_OPTIONS="print_stacktrace=1:halt_on_error=1")
+    p = subprocess.run(args, stdout=subprocess.PIPE, stderr=subprocess.STDOUT, env=env)
+    txt = p.stdout.decode(errors="replace")
+    m = re.search(r"stat::number_of_executed_units:\s*(\d+)", txt)
+    execs = int(m.group(1)) if m else len(re.findall(r"^#\d+", txt, re.M))
+    out["evaluations"] += execs
+    for f in glob.glob(os.path.join(wd, "corpus", "*")):
+        try:
+            out["nontrivial"].add(int(os.path.basename(f)[:16], 16))
+            if len(out["samples"]) < 3:
+                out["samples"].append({"input": {"hex": open(f, "rb").read()[:200].hex()}})
+        except Exception:
+            pass
+    arts = [a for a in glob.glob(os.path.join(wd, "art", "*")) if os.path.basename(a).startswith(("crash-", "leak-"))]
+    mod = importlib.import_module(job["module"])
+    known = Known(mod)
+    for a in sorted(arts):
+        data = open(a, "rb").read()
+        case = {"input": data}
+        v = fuzz_replay(cfg, target.fuzz, data)
+        if v is None:
+            continue
+        e = known.match(target.name, cfg, case, v)
+        if e is not None:
+            out["excluded"][e["id"]] += 1
+            continue
+        out["failure"] = dict(case=jsonable(case), msg=v.msg, details=jsonable(v.details))
+        break
+    shutil.rmtree(wd, ignore_errors=True)
+
+
 def replay_case(mod, target_name, cfg, case, times=3):
     """Execute one case in fresh runners. Returns list of outcomes: None (held) or Violation."""
     target = [t for t in mod.TARGETS if t.name == target_name][0]
     outs = []
+    if target.fuzz:
+        for _ in range(times):
+            outs.append(fuzz_replay(cfg, target.fuzz, case["input"]))
+        return outs
     for _ in range(times):
         env = Env()
         try:
